@@ -85,6 +85,21 @@ fn model_of(case: &Case) -> Option<&GenModel> {
 fn bounds_case_has_tag(c: &crate::bounds_world::BoundsCase, tag: &str) -> bool {
     use crate::bounds_world::SExp;
     match tag {
+        // some multiplier of the source model is non-zero but smaller than 1e-8 (below the
+        // analyzer's own absolute tolerance of 1e-9, or next to it)
+        "tiny-coefficient" => c.model.cons.iter().any(|con| {
+            let mut subs = Vec::new();
+            con.lhs.subexpressions(&mut subs);
+            con.rhs.subexpressions(&mut subs);
+            subs.iter().any(|e| match e {
+                SExp::MulL(d, _) | SExp::MulR(_, d) => {
+                    let v = d.f().abs();
+                    v != 0.0 && v < 1e-8
+                }
+                SExp::Div(_, d) => d.f().abs() > 1e8,
+                _ => false,
+            })
+        }),
         // some multiplier / divisor of the source model has magnitude below 1e-6 or above 1e6
         "extreme-coefficient" => c.model.cons.iter().any(|con| {
             let mut subs = Vec::new();
